@@ -82,7 +82,18 @@ def confirm(name):
 
 
 def main():
+    global INC
     os.makedirs(SCRATCH, exist_ok=True)
+    if sys.argv[1:2] == ['--recheck']:
+        # re-confirm changes that are already filed (after /repo's HEAD moved): nothing is copied, only reported
+        INC = os.path.join(ROOT, 'seeded')
+        names = sys.argv[2:] or sorted(n for n in os.listdir(INC) if re.fullmatch(r'C\d\d-\d', n))
+        with concurrent.futures.ThreadPoolExecutor(max_workers=6) as ex:
+            results = list(ex.map(confirm, names))
+        for r in results:
+            print(json.dumps({k: r.get(k) for k in ('name', 'patch_applies', 'suite_passes_with_patch', 'demo_unchanged_rc', 'demo_patched_rc', 'confirmed', 'error')}))
+        shutil.rmtree(SCRATCH, ignore_errors=True)
+        return
     names = sys.argv[1:] or sorted(n for n in os.listdir(INC) if re.fullmatch(r'C\d\d-\d', n))
     with concurrent.futures.ThreadPoolExecutor(max_workers=4) as ex:
         results = list(ex.map(confirm, names))
